@@ -14,6 +14,7 @@ CONSTANTS
   MaxRestart = 0
   MaxObst = 0
   MaxEncFail = 0
+  MaxOverlap = 0
   BufFloor = 99
   Hist = FALSE
 SPECIFICATION TSpec
